@@ -288,7 +288,7 @@ class Gen:
                 num = r.choice([i, i, i * 10, -i, -(1 << 31), (1 << 31) - 1, r.randint(-1000, 1000)])
                 if not alias:
                     while num in used_nums:
-                        num += 1
+                        num = num + 1 if num < (1 << 31) - 1 else r.randint(-5000, 5000)
             used_nums.add(num)
             values.append((n, num))
         if not values:
@@ -297,7 +297,7 @@ class Gen:
         if values[0][1] != 0:
             values[0] = (values[0][0], 0)
         has_alias = len({v for _, v in values}) < len(values)
-        e = Enum(name, values, alias=has_alias or (alias and r.random() < 0.5), comments=self.comment(0.3, False))
+        e = Enum(name, values, alias=has_alias, comments=self.comment(0.3, False))
         for n, _ in values:
             if r.random() < 0.2:
                 e.vcomments[n] = self.comment(0.9)
@@ -336,8 +336,13 @@ class Gen:
         numbers = set()
         oneofs = []
         if n >= 2 and r.random() < 0.4:
-            oneofs = [r.choice(["kind", "choice", "payload_oneof", "value_oneof", "which", "type"]) + (str(i) if i else "")
-                      for i in range(r.choice([1, 1, 2]))]
+            oneofs = []
+            for i in range(r.choice([1, 1, 2])):
+                o = r.choice(["kind", "choice", "payload_oneof", "value_oneof", "which", "type"]) + (str(i) if i else "")
+                okey = "".join(c for c in o if c.isalnum()).lower()
+                if okey not in taken:
+                    taken.add(okey)          # a oneof shares the scope of the fields
+                    oneofs.append(o)
         shadowed = set()        # builtin type names rebound by an earlier field of this class body (K15)
         for _ in range(n):
             name = self.field_name(taken, m)
@@ -381,7 +386,9 @@ class Gen:
                     elif t_.startswith(".google.protobuf.") and t_.rsplit(".", 1)[1] in WRAPPERS:
                         u.add(py_of_wrapper(t_.rsplit(".", 1)[1]))
                 return u
-            if uses_of(typ, mapkv) & shadowed:
+            py = self.py_field_name(name)
+            # (`name: annotation = value` binds the name before the annotation is evaluated: the field itself counts)
+            if uses_of(typ, mapkv) & (shadowed | ({py} if py in BUILTIN_TYPE_NAMES else set())):
                 free = [s_ for s_ in SCALARS if py_of(s_) not in shadowed]
                 if not free:
                     continue
@@ -616,7 +623,7 @@ def witnesses():
     w("k2_upper_package", "package_regex", "message A { int32 x = 1; }\nmessage B { A a = 1; }\n", pkg="Cap.pkg")
     # K8: names collapse after pythonisation
     w("k8_fields", "member_name_collision", "message A { int32 list = 1; string List = 2; }\n")
-    w("k8_fields_camel", "member_name_collision", "message A { int32 fooBar = 1; string foo_bar = 2; }\n")
+    w("k8_fields_camel", "member_name_collision", "message A { int32 HTTPStatus = 1; string http_status = 2; }\n")
     w("k8_enum_members", "member_name_collision", "enum Ab { ZERO = 0; X_AB_C = 1; C = 2; }\nmessage M { Ab e = 1; }\n")
     # K9: a field rebinds a name the class body / the Message API needs
     w("k9_betterproto", "api_shadow", "message A { int32 betterproto = 1; string s = 2; }\n")
